@@ -324,6 +324,24 @@ Definition e_views (x : sx) : sx :=
     end
   end.
 
+(** one command object parsing two lines in turn (C20, RerunProofs): (floats env decls spec argv1 argv2) *)
+Definition e_rerun (x : sx) : sx :=
+  let floats := dec_pairs (sx_nth 0 x) in
+  let env := dec_pairs (sx_nth 1 x) in
+  let ds := map (dec_decl floats) (sx_list (sx_nth 2 x)) in
+  let spec := sx_str (sx_nth 3 x) in
+  match do_init (float_of floats) (getenv_of env) ds spec with
+  | IOk i =>
+    match fsm_parse_twice (float_of floats) i (sx_strs (sx_nth 4 x)) (sx_strs (sx_nth 5 x)) with
+    | Some (PAccept o a) => SL [SA (lit "accept"); SL (enc_level ([lit "app"], o, a))]
+    | Some PUsage => SL [SA (lit "usage")]
+    | Some PConv => SL [SA (lit "conv")]
+    | Some PFuelOut => SL [SA (lit "fuel")]
+    | None => SL [SA (lit "unknown")]
+    end
+  | _ => SL [SA (lit "initerr")]
+  end.
+
 (** dispatcher: (op payload) *)
 Definition e_dispatch (x : sx) : sx :=
   let op := sx_str (sx_nth 0 x) in
@@ -334,4 +352,5 @@ Definition e_dispatch (x : sx) : sx :=
   else if str_eqb op (lit "run") then e_run p
   else if str_eqb op (lit "sentence") then e_sentence p
   else if str_eqb op (lit "views") then e_views p
+  else if str_eqb op (lit "rerun") then e_rerun p
   else SL [SA (lit "unknown-op")].
